@@ -51,6 +51,7 @@ class Context:
         self.findings_absent = set()
         self.ghost_assumes = set()
         self.ob_cache = {}
+        self.degraded = set()
         self.keep = []
 
     def patterns_for(self, body, j):
